@@ -95,6 +95,11 @@ class InlineDefinedFuns:
         res = get_defined_fun(node)
         if res == node:
             return []
+        fname = node.data if node.is_leaf() else node[0].data
+        if any(n.is_leaf() and n.data == fname for n in nodes.dfs(res)):
+            # the function is recursive: what is inlined contains the
+            # function again, inlining could be repeated for ever
+            return []
         if not node.is_leaf():
             # an argument must not be captured by a binder of the body
             bound = set()
